@@ -45,11 +45,43 @@ def gen_obj(rng, pardim=None, dim=None, rational=None, kinds=None, pmax=None, ni
             w = rng.choice([Fr(1), Fr(1), Fr(2), Fr(4)] if intcps else [Fr(1, 4), Fr(1, 2), Fr(1), Fr(1), Fr(3, 2), Fr(2), Fr(4)])
             pt = [x * w for x in pt] + [w]
         cps.append(pt)
-    return dict(bases=bases, cps=cps, dim=dim, rational=bool(rational), intcps=intcps)
+    # how the control points are handed to the constructor (see make_impl): mostly the internal raw form
+    ctor = rng.choice(['raw'] * 6 + ['flatC', 'flatF', 'flatF', 'strided', 'list'])
+    return dict(bases=bases, cps=cps, dim=dim, rational=bool(rational), intcps=intcps, ctor=ctor)
+
+
+class ConstructorMismatch(Exception):
+    """the public constructor did not store the control points it was given"""
+    def __init__(self, case):
+        Exception.__init__(self, case['what'])
+        self.case = case
+
+
+def fuzz_knots(rng, spec, prob=1.0):
+    """Copies of one knot that agree to within the knot tolerance but are not bit-identical (what
+    insert_knot(0.1 + 0.2) next to an existing 0.3 leaves behind): in every non-periodic direction that has an interior knot
+    of multiplicity >= 2, the last copy of one such knot is moved up by 2^-40 (exactly representable, far below the
+    tolerance 1e-10, order preserved).  Returns True when something was changed."""
+    changed = False
+    for b in spec['bases']:
+        if b['periodic'] >= 0 or rng.random() >= prob:
+            continue
+        k, p = b['knots'], b['order']
+        s, e = k[p - 1], k[len(k) - p]
+        cand = [i for i in range(1, len(k) - 1) if s < k[i] < e and k[i - 1] == k[i] and k[i + 1] > k[i] + Fr(1, 2 ** 30)
+                and abs(k[i]) < 2 ** 11]
+        if cand:
+            i = rng.choice(cand)
+            k[i] = k[i] + Fr(1, 2 ** 40)
+            changed = True
+    return changed
 
 
 def make_impl(spec):
-    """implementation object from a spec (cps are in C order)"""
+    """implementation object from a spec (cps are in C order).  spec['ctor'] selects how the control points reach the
+    constructor: 'raw' (the internal (n1, .., nd, ncomp) array), or the public flat form -- one row per control point, first
+    parametric index running fastest -- as a C-contiguous array, a Fortran-contiguous array (what np.array([x, y, z]).T or a
+    solver returns), a strided view, or nested lists.  All of them must give the same object."""
     from splipy import BSplineBasis, Curve, Surface, Volume
     from splipy.splineobject import SplineObject
     bs = [BSplineBasis(b['order'], [float(x) for x in b['knots']], b['periodic']) for b in spec['bases']]
@@ -60,9 +92,31 @@ def make_impl(spec):
     else:
         arr = np.array([[float(x) for x in pt] for pt in spec['cps']], dtype=float).reshape(shape + [ncomp])
     cls = {1: Curve, 2: Surface, 3: Volume}.get(len(bs))
-    if cls is None:
-        return SplineObject(bs, arr, spec['rational'], raw=True)
-    return cls(*bs, arr, spec['rational'], raw=True)
+    ctor = spec.get('ctor', 'raw')
+    if ctor == 'raw' or cls is None:
+        if cls is None:
+            return SplineObject(bs, arr, spec['rational'], raw=True)
+        return cls(*bs, arr, spec['rational'], raw=True)
+    pd = len(bs)
+    flat = np.ascontiguousarray(arr.transpose(tuple(range(pd - 1, -1, -1)) + (pd,)).reshape(-1, ncomp))
+    if ctor == 'flatF':
+        given = np.asfortranarray(flat)
+    elif ctor == 'strided':
+        big = np.zeros((2 * flat.shape[0], ncomp + 1), dtype=flat.dtype)
+        big[::2, :ncomp] = flat
+        given = big[::2, :ncomp]
+    elif ctor == 'list':
+        given = flat.tolist()
+    else:
+        given = flat
+    o = cls(*bs, given, spec['rational'])
+    got = np.asarray(o.controlpoints)
+    if got.shape != arr.shape or not np.array_equal(got, arr):
+        raise ConstructorMismatch(dict(what='L2: the constructor given the control points as %s (one row per point, first index fastest) '
+                                            'stores a different control net' % {'flatC': 'a C-contiguous array', 'flatF': 'a Fortran-contiguous array',
+                                                                                 'strided': 'a strided view', 'list': 'nested lists'}[ctor],
+                                       op='constructor', ctor=ctor, obj=spec_json(spec)))
+    return o
 
 
 def snapshot(o):
@@ -106,12 +160,12 @@ def read_obj(tk):
 
 def spec_json(s):
     return dict(bases=[dict(order=b['order'], knots=[str(x) for x in b['knots']], periodic=b['periodic']) for b in s['bases']],
-                cps=[[str(x) for x in p] for p in s['cps']], dim=s['dim'], rational=s['rational'], intcps=bool(s.get('intcps', False)))
+                cps=[[str(x) for x in p] for p in s['cps']], dim=s['dim'], rational=s['rational'], intcps=bool(s.get('intcps', False)), ctor=s.get('ctor', 'raw'))
 
 
 def spec_from_json(j):
     return dict(bases=[dict(order=b['order'], knots=[Fr(x) for x in b['knots']], periodic=b['periodic']) for b in j['bases']],
-                cps=[[Fr(x) for x in p] for p in j['cps']], dim=j['dim'], rational=j['rational'], intcps=bool(j.get('intcps', False)))
+                cps=[[Fr(x) for x in p] for p in j['cps']], dim=j['dim'], rational=j['rational'], intcps=bool(j.get('intcps', False)), ctor=j.get('ctor', 'raw'))
 
 
 def domain(b):
